@@ -98,7 +98,7 @@ PROPS = {
                 bind="C06"),
     "C13": dict(focus=["C13", "EXC"], gen=_cfg_c13, nrand=(300, 3000), nsim=(0, 0), sim=None,
                 design=([], []), witnesses=[], deviations=[], bind="C13"),
-    "C17": dict(focus=["C17", "EXC"], gen=_cfg_c17, nrand=(70, 600), nsim=(20, 150),
+    "C17": dict(focus=["C17", "EXC"], gen=_cfg_c17, nrand=(70, 600), nsim=(40, 300),
                 sim="sim-pr", design=([], []), witnesses=[], deviations=[], bind="C17"),
 }
 
@@ -144,14 +144,15 @@ def _lockstep_batch(args):
         acts = [st["act"] for _, st in beh[1:]]
         variants = [(None, None)] if not origins else origins
         ref = None
-        for oa, ob in variants:
-            ls = M.LockStep(config, oa, ob)
+        for vi, (oa, ob) in enumerate(variants):
+            sq = [0, 65535, 65534, 65533][vi % 4] if origins else 0
+            ls = M.LockStep(config, oa, ob, sseq=sq)
             try:
                 tr = ls.run(beh)
             finally:
                 ls.close()
             tr["focus"] = PROPS[prop]["focus"]
-            tr["meta"] = {"src": "lockstep", "config": cfgname, "acts": acts, "origin": [oa, ob]}
+            tr["meta"] = {"src": "lockstep", "config": cfgname, "acts": acts, "origin": [oa, ob], "sseq": sq}
             if origins:
                 if ref is None:
                     ref = _strip_setup(tr["events"])
@@ -485,6 +486,93 @@ def _dcl_lockstep_stage(prop, thorough, sd):
     return out, traces
 
 
+TEARDOWN_INV = ["TimerIffAckSent", "EndClosesChannel", "EndsForAReason", "Bounded", "ChannelOpenWhileUp"]
+TEARDOWN_DEVS = [("CompleteAnyState", "EndsForAReason"), ("NoT2Restart", "TimerIffAckSent"),
+                 ("ChannelsSurviveEnd", "EndClosesChannel"), ("NoGiveUp", "Bounded")]
+TEARDOWN_WIT = ["W_NeverGaveUp", "W_NeverCompleted", "W_NoRevival"]
+
+
+def _td_cfg(retrans, inject, dev=(), inv=TEARDOWN_INV, spec="Spec", props=()):
+    lines = ["SPECIFICATION " + spec, "CONSTANTS", " MaxRetrans = %d" % retrans, " MaxInject = %d" % inject,
+             " Dev = {%s}" % ", ".join('"%s"' % d for d in dev)]
+    lines += ["INVARIANT " + i for i in inv] + ["PROPERTY " + x for x in props]
+    if spec == "Spec":
+        lines.append("VIEW View")
+    lines.append("CHECK_DEADLOCK FALSE")
+    return "\n".join(lines) + "\n"
+
+
+def _teardown_stage(prop, thorough, sd):
+    """SctpTeardown.tla (passive SHUTDOWN handshake, T2, ABORT, stop): exhaustive check, witnesses,
+    deviations, liveness `Ends`; lock-step replay with the code's own retransmission limit."""
+    from .teardown_lockstep import TeardownLockStep
+    out = {}
+    traces = []
+    with T.Scratch() as sc:
+        res = T.tlc(sc, "SctpTeardown", _td_cfg(3, 4), workers=4, timeout=600)
+        if res.violated or not res.complete:
+            raise T.MachineryError("SctpTeardown fails its own clauses: %s\n%s" % (res.violated, res.out[-1000:]))
+        out["teardown_states"], out["teardown_transitions"] = res.distinct, res.generated
+        for w in TEARDOWN_WIT:
+            r = T.tlc(sc, "SctpTeardown", _td_cfg(2, 3, inv=[w]), workers=2, timeout=300)
+            if w not in r.violated:
+                raise T.MachineryError("vacuity: teardown witness %s not reached" % w)
+        devs = {}
+        for d, clause in TEARDOWN_DEVS:
+            r = T.tlc(sc, "SctpTeardown", _td_cfg(2, 3, dev=[d]), workers=2, timeout=300)
+            hit = clause in r.violated
+            devs[d] = r.violated[:1]
+            if not hit:
+                raise T.MachineryError("sensitivity: teardown deviation %s not detected (%s)" % (d, r.violated))
+        out["teardown_deviations_detected"] = devs
+        lv = T.tlc(sc, "SctpTeardown", _td_cfg(3, 3, inv=[], spec="FairSpec", props=["Ends"]), workers=2, timeout=600)
+        if lv.violated or lv.error:
+            raise T.MachineryError("SctpTeardown fails Ends: %s\n%s" % (lv.violated, lv.out[-800:]))
+        out["teardown_liveness_Ends"] = bool(lv.complete)
+        import aiortc.rtcsctptransport as S
+        limit = S.SCTP_MAX_ASSOCIATION_RETRANS
+        r, behs = T.simulate(sc, "SctpTeardown", _td_cfg(limit, 4, inv=[], spec="SimSpec"), num=300 if thorough else 60,
+                             depth=48, seed=sd, timeout=600)
+        if not behs:
+            raise T.MachineryError("no simulated teardown behaviours\n" + r.out[-800:])
+        r2, dbehs = T.simulate(sc, "SctpTeardown", _td_cfg(limit, 4, dev=["CompleteAnyState"], inv=[], spec="SimSpec"), num=40,
+                               depth=48, seed=sd + 1, timeout=600)
+    steps = matched = 0
+    mism = []
+    acts = {}
+    for i, beh in enumerate(behs):
+        ls = TeardownLockStep("AB"[i % 2])
+        try:
+            tr = ls.run(beh)
+        finally:
+            ls.close()
+        steps += tr["steps"]
+        matched += tr["matched"]
+        for a in ls.acts:
+            acts[a["op"]] = acts.get(a["op"], 0) + 1
+        if tr["mismatch"] and len(mism) < 5:
+            mism.append(tr["mismatch"])
+        if len(traces) < 60:
+            tr["focus"] = PROPS[prop]["focus"]
+            tr["meta"] = {"src": "teardown-lockstep", "side": "AB"[i % 2], "acts": [_jsonable(a) for a in ls.acts]}
+            traces.append(tr)
+    out["teardown_retransmission_limit"] = limit
+    out["teardown_lockstep_steps"], out["teardown_lockstep_agreeing"] = steps, matched
+    out["teardown_lockstep_first_mismatches"] = mism
+    out["teardown_lockstep_actions"] = acts
+    div = 0
+    for i, beh in enumerate(dbehs):
+        ls = TeardownLockStep("AB"[i % 2])
+        try:
+            div += 1 if ls.run(beh)["mismatch"] else 0
+        finally:
+            ls.close()
+    if div == 0 and steps == matched:
+        raise T.MachineryError("lock-step binding lost: SctpTeardown with CompleteAnyState agrees with the code")
+    out["teardown_lockstep_deviating_model_diverges"] = div
+    return out, traces
+
+
 def _jsonable(a):
     return {k: (sorted(v) if not isinstance(v, (str, int, bool)) else v) for k, v in a.items()}
 
@@ -669,6 +757,9 @@ def run(prop):
         if prop == "C13":
             dcl_extra, dcl_traces = _dcl_lockstep_stage(prop, thorough, sd)
             traces.extend(dcl_traces)
+            td_extra, td_traces = _teardown_stage(prop, thorough, sd)
+            dcl_extra.update(td_extra)
+            traces.extend(td_traces)
 
         verdicts, tstates, ttrans = J.judge(traces, parallel=8)
 
@@ -833,9 +924,17 @@ def replay(prop, path):
             tr = ls.run([("init", {})] + [("x", {"act": a}) for a in meta["acts"]])
         finally:
             ls.close()
+    elif meta.get("src") == "teardown-lockstep":
+        from .teardown_lockstep import TeardownLockStep
+        ls = TeardownLockStep(meta.get("side", "B"))
+        try:
+            ls.mismatch = "replay"
+            tr = ls.run([("init", {})] + [("x", {"act": a}) for a in meta["acts"]])
+        finally:
+            ls.close()
     elif meta.get("src") == "lockstep":
         config = M.SIM_CONFIGS.get(meta["config"]) or M.CONFIGS[meta["config"]]
-        ls = M.LockStep(config, *meta.get("origin", [None, None]))
+        ls = M.LockStep(config, *meta.get("origin", [None, None]), sseq=meta.get("sseq", 0))
         try:
             beh = [("init", {})] + [("x", {"act": a, "snd": None}) for a in meta["acts"]]
             ls.compare = lambda state: None
